@@ -37,6 +37,20 @@ CHECKS = {
             'raise asn1tools.DecodeError (not return a value, not raise a foreign exception)',
             'assumes the encoders emit no byte their own decoder does not need (argued in DESIGN.md C16)',
             'property-based testing (Hypothesis), exhaustive prefix enumeration per case'),
+    'C17': ('hypothesis stateful + crash-point enumeration', 'fault_enumeration',
+            'rule-based state machine over one cache directory: file writes, compile_files with varying files/order/'
+            'codec/numeric_enums/any_defined_by_choices (cached compile in a fresh process vs uncached), cache-file '
+            'corruption at drawn offsets, and a populating child SIGKILLed at its n-th diskcache/sqlite3 call event; '
+            'a cached result must behave like the uncached compile or the call must fail',
+            'crash points are Python-level call events inside diskcache/sqlite3; power-loss reordering is not modelled',
+            'stateful property-based testing with enumerated crash points, differential against uncached compile'),
+    'C18': ('hypothesis stateful', 'exploration',
+            'rule-based state machine: histories of up to 50 encode/decode operations (valid, ill-typed, truncated, '
+            'bit-flipped) on one compiled specification; every result equals the same call on a freshly compiled '
+            'specification and arguments are unmodified; the history is replayed on 1-8 threads with varied switch '
+            'intervals',
+            'the threaded replay does not own the interpreter schedule (best-effort); the sequential part is deterministic',
+            'stateful property-based testing (Hypothesis), differential against a fresh compile per operation'),
     'C19': ('hypothesis', 'exploration',
             'generated module sets x meaning-preserving re-arrangements (permute assignments/modules, move a '
             'definition into a new module with IMPORTS, inline a reference at a member, extract an inline member '
